@@ -30,7 +30,14 @@ ENVS = {
     "late": ["A:10037"] + ["A:1037", "F:f"] * 220,
     # nothing arrives any more (about 190 s of virtual time)
     "silent": ["A:4037", "A:10037", "A:10037", "A:21037", "A:21037", "A:41037", "A:41037", "A:41037"],
+    # the controller keeps broadcasting sensor data whose frame-version table says "version 0" for two request kinds and never
+    # answers those requests: an unchanged table must not queue anything again (else the queue grows for ever)
+    "bcast": ["A:1037", "F:v:2:0"] * 220,
 }
+
+
+def last_z(events):
+    return max(i for i, e in enumerate(events) if e.split("~")[0] == "Z")
 
 BASES = [
     # (consumers, reconnect, open script, events)  -- close() is inserted at every position
@@ -53,6 +60,15 @@ BASES = [
     (3, 1, [], ["C", "F:u", "F:u", "F:u", "F:p:69", "F:f", "Q:1", "F:u", "F:p:69"]),
     (2, 1, [], ["C", "F:p:69", "F:u", "F:u", "F:p:69", "F:u", "F:f"]),
     (1, 0, [], ["C", "F:u", "F:p:69", "Q:1", "F:p:69"]),
+    # the connection object is used again: close() returns, connect() again (also through the context manager), traffic,
+    # loss; close() twice in a row; close() before the first connect()
+    (3, 1, [], ["C", "F:p:69", "Z", "C", "F:s:1:1", "P:m:0", "Q:1", "F:f", "X", "A:537", "F:f"]),
+    (2, 1, ["ooo", "ooo", "e", "ooo"], ["C~ctx", "F:s:1:1", "A:9537", "F:f", "F:f", "Z~ctx", "A:1037", "C~ctx", "F:p:69", "X", "A:20037", "F:f"]),
+    (3, 0, [], ["Z", "C", "F:p:69", "P:d:69", "Z", "Z", "A:537", "C", "F:p:69", "Q:1", "F:f"]),
+    (1, 1, ["ooh", "ooo"], ["C", "F:p:81", "Z", "A:10037", "Z", "C", "F:p:81", "F:p:69"]),
+    # frame-version tables: version 0 for one / two kinds, repeated, changed
+    (3, 1, [], ["C", "F:v:2:0", "F:f", "F:v:2:0", "F:v:1:3", "F:f", "F:v:2:3", "F:f", "F:f"]),
+    (2, 1, [], ["C", "F:p:69", "F:v:1:0", "A:9537", "F:v:2:0", "F:f", "F:v:2:0"]),
     # frames from addresses that have no device class (ecoNET, broadcast) before the first frames of real devices
     (3, 1, [], ["C", "F:o:86", "F:p:69", "F:o:0", "F:p:81", "F:f", "Q:1", "F:p:69"]),
     (2, 0, [], ["C", "F:p:69", "F:o:0", "F:s:1:1", "F:o:86", "F:p:81"]),
@@ -108,7 +124,9 @@ def gen(rng, tier):
             elif quick and bi >= len(BASES):
                 chosen = [envs[(k + bi) % len(envs)]]
             else:
-                chosen = [e for e in envs if e != "late"]
+                chosen = [e for e in envs if e not in ("late", "bcast")]
+            if any(e.startswith("F:v") for e in b[3][:k]):
+                chosen = chosen + ["bcast"]
             for env in chosen:
                 yield ("base" if bi < len(BASES) else "random") + ":" + env, with_close(b, k, env)
 
@@ -117,7 +135,7 @@ def judge(res, lab, h, segs, extras, info, m):
     cfg, rc, script, events = h
     line = connhist.fmt_line(h)
     states = [connrun.parse_state(s) for s in segs]
-    zpos = events.index("Z")
+    zpos = last_z(events)
     env = lab.split(":")[-1] if ":" in lab else "?"
     before = states[zpos - 1] if zpos > 0 else dict(q="0", c="0", p="0")
     xb = extras[zpos - 1] if zpos > 0 else dict(classes=dict(rq=0, s=0, k=0), drain_mode="ok")
@@ -133,7 +151,9 @@ def judge(res, lab, h, segs, extras, info, m):
                       and not xb.get("writing", False) and not loss_after)
     # frames left in the read queue with no live consumer while nothing is connected: the read-queue side of F1
     read_starved0 = xb.get("rqsize", 0) > 0 and xb["classes"].get("k", 0) == 0 and before["c"] == "0"
-    drains = (idle_drains or sending_drains) and not read_starved0
+    # (a user callback that holds a frame while close() is called - harness gate G not yet released - delays close() for as long
+    # as the user likes: not a state that drains within the I/O time-outs)
+    drains = (idle_drains or sending_drains) and not read_starved0 and not xb.get("gate_closed")
     bound = (q0 + 1) * max(connspec.RT, connspec.WT)
     issued = states[zpos]["z"] != "n"
     if not issued:
@@ -218,7 +238,7 @@ def evaluate(res, items):
     model = connhist.model_batch(hists)
     for (lab, h), (segs, extras, info), m in zip(items, impl, model):
         line = connhist.fmt_line(h)
-        zpos = h[3].index("Z")
+        zpos = last_z(h[3])
         pre = extras[zpos - 1]["classes"] if zpos > 0 else {}
         nontrivial = zpos > 0 and (pre.get("p", 0) + pre.get("k", 0) + pre.get("l", 0) + pre.get("r", 0) + pre.get("s", 0)
                                    + pre.get("d", 0) + pre.get("b", 0)) > 0
@@ -306,6 +326,91 @@ def read_queue_variant(res):
             loop.close()
 
 
+def held_open_variant(res, tier):
+    """close() while a reconnect attempt of the connection's OWN retry chain (second or later attempt: a task of the
+    Connection, not of the protocol) is in flight, the attempt succeeding at each of the event-loop iterations between the
+    start of close() and its return (implementation only: the machine's close() is one step, `cancelConn` first - the
+    connection's tasks are cancelled before anything else, so a late success finds nobody).  `_open_connection` of the
+    held attempt waits for the harness; it is released k loop iterations after close() was started (k = 0 .. 24), or
+    close() is started j iterations after the release.  Afterwards: close() returned, no library task pending, every
+    transport ever opened is closed."""
+    import asyncio
+    from asyncio import events
+
+    import connfake
+    import vloop
+
+    class HeldConn(connfake.ScriptedConnection):
+        nopen = 0
+        hold_from = 3
+
+        @connfake.timeout(connfake.CONNECT_TIMEOUT)
+        async def _open_connection(self):
+            self.nopen += 1
+            if self.nopen >= self.hold_from:
+                await self.go.wait()
+            return await connfake.scripted_open(self)
+
+    def spin(loop, n):
+        events._set_running_loop(loop)
+        try:
+            for _ in range(n):
+                if not loop._ready:
+                    break
+                loop._run_once_nonblocking()
+        finally:
+            events._set_running_loop(None)
+
+    offsets = list(range(0, 25)) + [-1, -2, -3]
+    for with_device in (True, False):
+        for off in offsets:
+            loop = vloop.new_loop()
+            conn = HeldConn(script=["ok", "err", "ok", "ok"], reconnect_on_failure=True)
+            conn.go = asyncio.Event()
+            loop.create_task(conn.connect(), name="harness-connect")
+            connfake.settle(loop)
+            if with_device:
+                conn.readers[-1].feed_data(connfake.password_frame())
+                connfake.settle(loop)
+            conn.readers[-1].feed_eof()
+            connfake.settle(loop)            # loss; the first attempt (inside the protocol's loss handler) fails
+            connfake.settle(loop, 20.037)    # back-off over: the retry runs as a task of the connection, its open is held
+            held = conn.nopen >= conn.hold_from
+            if off < 0:
+                conn.go.set()
+                spin(loop, -off)
+            close = loop.create_task(conn.close(), name="harness-close")
+            if off >= 0:
+                spin(loop, off)
+                conn.go.set()
+            connfake.settle(loop, 21.0)
+            left = sorted(t.get_coro().cr_code.co_name for t in asyncio.all_tasks(loop) if not t.done() and t is not close)
+            unclosed = [w.tid for w in conn.writers if not w.closed]
+            hist = (f"held-open: connect, {'password frame, ' if with_device else ''}EOF, first reconnect attempt fails, back-off, second attempt "
+                    f"(connection's own task) in flight; close() and the attempt succeeding {off} loop iteration(s) later")
+            res.case(hist, True)
+            res.count("held-open:" + ("attempt-in-flight" if held else "not-held"))
+            if not close.done():
+                res.fail("spec", dict(history=hist), "close() returns (it never deadlocks)",
+                         f"close() blocked in {connrun.coro_chain(close)}", "close() returns")
+            elif left or unclosed:
+                res.fail("spec", dict(history=hist), "no task created by the protocol, the connection, a device or a sub-device is left pending; the transport is closed",
+                         f"after close() returned: tasks {left}, transports never closed {unclosed} (opened: {len(conn.writers)})",
+                         "no task left, every transport closed")
+            events._set_running_loop(loop)
+            try:
+                for t in asyncio.all_tasks(loop):
+                    t.cancel()
+                for _ in range(30):
+                    if not loop._ready:
+                        break
+                    loop._run_once()
+            finally:
+                events._set_running_loop(None)
+                asyncio.set_event_loop(None)
+                loop.close()
+
+
 def run(ctx):
     rng = random.Random(ctx["seed"] * 15485863 + 12)
     res = Result("C12")
@@ -328,6 +433,7 @@ def run(ctx):
             res.notes.append(f"stopped after {i + B} histories: {len(res.failures)} failures already")
             break
     read_queue_variant(res)
+    held_open_variant(res, ctx["tier"])
     res.extra["partial"] = ("liveness is checked for the real event loop on generated histories and proved for the modelled scheduler; "
                             "F1 (unbounded Queues.join) is an open known finding")
     return res
@@ -339,8 +445,8 @@ def replay(ctx):
     h = connhist.parse_line(f["input"]["history"])
     res = Result("C12")
     res.rule = "replay of one recorded history"
-    if "Z" not in h[3]:
+    if not any(e.split("~")[0] == "Z" for e in h[3]):
         h = (h[0], h[1], h[2], h[3] + ["Z"])
-    env = "sending" if any(e.startswith("F:") for e in h[3][h[3].index("Z") + 1:]) else "silent"
+    env = "sending" if any(e.startswith("F:") for e in h[3][last_z(h[3]) + 1:]) else "silent"
     evaluate(res, [("replay:" + env, h)])
     return res
